@@ -120,7 +120,7 @@ def concurrent_check(res, pid, cone, kinds, n_quick, n_thorough, oracle, known, 
     fails, known_hits = [], {}
     for k, c, r in runs:
         if r["verdict"] == "harness-stall" and pid in ("C02", "C05", "C07"):
-            # a thread of the real code runs for 20 s without reaching any instrumented operation: a busy loop
+            # a thread of the real code runs for 30 s without reaching any instrumented operation: a busy loop
             fails.append({"kind": k, "case": strip(c), "schedule": c.get("schedule", [])[:len(r.get("trace", []))],
                           "why": "a thread spins without ever reaching its next queue / future / process operation "
                                  "(busy loop); last steps %r" % ([" ".join(str(x) for x in lab) for en, pick, lab in r.get("trace", [])[-4:]],),
